@@ -72,10 +72,7 @@ class MessageToUserTlv(AbstractTlvBase):
 
     @classmethod
     def unpack(cls, data: bytes) -> MessageToUserTlv:
-        msg_to_user_tlv = cls.__empty()
-        msg_to_user_tlv.tlv = CfdpTlv.unpack(data)
-        msg_to_user_tlv.check_type(MessageToUserTlv.TLV_TYPE)
-        return msg_to_user_tlv
+        return cls.from_tlv(CfdpTlv.unpack(data))
 
     @classmethod
     def from_tlv(cls, cfdp_tlv: CfdpTlv) -> MessageToUserTlv:
